@@ -1,4 +1,4 @@
-/- The token-level printer (`fmtToks`) and its repaired version are renderings in the sense of `Tk`. -/
+/- The token-level printer (`fmtToks`) writes renderings in the sense of `Tk`: every parenthesis the grammar needs. -/
 import Rooc.Proofs.Render
 import Rooc.Syntax.FormatToks
 namespace Rooc.Syntax.Proofs
@@ -10,89 +10,25 @@ theorem assoc_documented (o : BinOp) : Gen.binLeftAssoc o = !(docRightAssoc o) :
 theorem binKwTok_mem (o : BinOp) : binKwTok o ∈ binToks o := by cases o <;> simp [binKwTok, binToks]
 theorem unKwTok_mem (u : UnOp) : unKwTok u ∈ unToks u := by cases u <;> simp [unKwTok, unToks]
 
-mutual
-theorem fmt_tk : (t : PExp) → WF t → roundTrips t = true →
-    ∃ items, Tk t (fmtToks t) items ∧ (t.isLeaf = true → items = [.leaf t])
-  | .int v, h, _ => by
-    refine ⟨[.leaf (.int v)], ?_, fun _ => rfl⟩
-    have := Atom.int (String.ofList (natDigits v)) (by simpa [WF, digitsToNat_natDigits] using h)
-    simp only [String.toList_ofList, digitsToNat_natDigits] at this
-    exact Tk.atom this
-  | .num s, _, _ => ⟨[.leaf (.num s)], Tk.atom (Atom.num s), fun _ => rfl⟩
-  | .bool true, _, _ => ⟨[.leaf (.bool true)], Tk.atom Atom.tt, fun _ => rfl⟩
-  | .bool false, _, _ => ⟨[.leaf (.bool false)], Tk.atom Atom.ff, fun _ => rfl⟩
-  | .var n, h, _ => ⟨[.leaf (.var n)], Tk.atom (Atom.var n h.1 h.2), fun _ => rfl⟩
-  | .call n args, h, hr => by
-    have ha := fmtArgs_tk args h.2.2 (by simpa [roundTrips] using hr)
-    exact ⟨[.leaf (.call n args)], by simpa [fmtToks] using Tk.call h.1 h.2.1 ha, fun _ => rfl⟩
-  | .un u e, h, hr => by
-    obtain ⟨items, hk, hleaf⟩ := fmt_tk e h (by simpa [roundTrips] using hr)
-    refine ⟨[.op (docUnRule u), .leaf e], ?_, fun hl => by simp [PExp.isLeaf] at hl⟩
-    simp only [fmtToks]
-    by_cases he : e.isLeaf = true
-    · simp only [he, if_true]
-      have := hleaf he; subst this
-      exact Tk.un hk (unKwTok_mem u)
-    · simp only [he]
-      exact Tk.un (Tk.paren hk) (unKwTok_mem u)
-  | .bin o l r, h, hrt => by
-    simp only [roundTrips, Bool.and_eq_true, Bool.or_eq_true, Bool.not_eq_true'] at hrt
-    obtain ⟨⟨⟨hpl, hpr⟩, hrl⟩, hrr⟩ := hrt
-    obtain ⟨il, hl, _⟩ := fmt_tk l h.1 hrl
-    obtain ⟨ir, hr, _⟩ := fmt_tk r h.2 hrr
-    refine ⟨(if printsParen (Gen.binPrec o) l then [.leaf l] else il) ++ .op (docRule o) ::
-        (if printsParen (Gen.binPrec o) r then [.leaf r] else ir), ?_, fun hl => by simp [PExp.isLeaf] at hl⟩
-    simp only [fmtToks]
-    have hL : Tk l (if printsParen (Gen.binPrec o) l then parenToks (fmtToks l) else fmtToks l)
-        (if printsParen (Gen.binPrec o) l then [.leaf l] else il) := by
-      by_cases hp : printsParen (Gen.binPrec o) l = true
-      · simp only [hp, if_true]; exact Tk.paren hl
-      · simp only [hp]; exact hl
-    have hR : Tk r (if printsParen (Gen.binPrec o) r then parenToks (fmtToks r) else fmtToks r)
-        (if printsParen (Gen.binPrec o) r then [.leaf r] else ir) := by
-      by_cases hp : printsParen (Gen.binPrec o) r = true
-      · simp only [hp, if_true]; exact Tk.paren hr
-      · simp only [hp]; exact hr
-    refine Tk.bin hL hR ?_ ?_ (binKwTok_mem o)
-    · rcases hpl with hp | hp
-      · left; simp [hp]
-      · right; exact hp
-    · rcases hpr with hp | hp
-      · left; simp [hp]
-      · right; exact hp
-  | .str _, h, _ | .prim _, h, _ | .cvar _ _, h, _ | .access _ _, h, _ | .block _ _, h, _ | .scoped _ _ _ _, h, _ => by
-    simp [WF] at h
-theorem fmtArgs_tk : (args : List PExp) → WF.WFs args → roundTripsList args = true → Args args (fmtToksArgs args)
-  | [], _, _ => Args.nil
-  | [a], h, hr => by
-    obtain ⟨items, hk, _⟩ := fmt_tk a h.1 (by simpa [roundTripsList] using hr)
-    simpa [fmtToksArgs] using Args.one hk
-  | a :: b :: rest, h, hr => by
-    simp only [roundTripsList, Bool.and_eq_true] at hr
-    obtain ⟨items, hk, _⟩ := fmt_tk a h.1 hr.1
-    have hr' := fmtArgs_tk (b :: rest) h.2 (by simpa [roundTripsList] using hr.2)
-    simpa [fmtToksArgs] using Args.cons hk hr'
-end
-
-/-- the repaired printer parenthesises every operand that needs it -/
-theorem fixed_covers_left (p : BinOp) (l : PExp) (h : needParenLeft p l = true) : printsParenFixed p false l = true := by
+/-- the printer parenthesises every operand that needs it -/
+theorem printer_covers_left (p : BinOp) (l : PExp) (h : needParenLeft p l = true) : printsParen p false l = true := by
   cases l with
   | bin c a b =>
     simp only [needParenLeft, decide_eq_true_eq] at h
-    simp only [printsParenFixed]
+    simp only [printsParen]
     revert h; cases p <;> cases c <;> decide
   | _ => simp [needParenLeft] at h
-theorem fixed_covers_right (p : BinOp) (r : PExp) (h : needParenRight p r = true) : printsParenFixed p true r = true := by
+theorem printer_covers_right (p : BinOp) (r : PExp) (h : needParenRight p r = true) : printsParen p true r = true := by
   cases r with
   | bin c a b =>
     simp only [needParenRight, decide_eq_true_eq] at h
-    simp only [printsParenFixed]
+    simp only [printsParen]
     revert h; cases p <;> cases c <;> decide
   | _ => simp [needParenRight] at h
 
 mutual
-theorem fmtFixed_tk : (t : PExp) → WF t →
-    ∃ items, Tk t (fmtToksFixed t) items ∧ (t.isLeaf = true → items = [.leaf t])
+theorem fmt_tk : (t : PExp) → WF t →
+    ∃ items, Tk t (fmtToks t) items ∧ (t.isLeaf = true → items = [.leaf t])
   | .int v, h => by
     refine ⟨[.leaf (.int v)], ?_, fun _ => rfl⟩
     have := Atom.int (String.ofList (natDigits v)) (by simpa [WF, digitsToNat_natDigits] using h)
@@ -101,14 +37,14 @@ theorem fmtFixed_tk : (t : PExp) → WF t →
   | .num s, _ => ⟨[.leaf (.num s)], Tk.atom (Atom.num s), fun _ => rfl⟩
   | .bool true, _ => ⟨[.leaf (.bool true)], Tk.atom Atom.tt, fun _ => rfl⟩
   | .bool false, _ => ⟨[.leaf (.bool false)], Tk.atom Atom.ff, fun _ => rfl⟩
-  | .var n, h => ⟨[.leaf (.var n)], Tk.atom (Atom.var n h.1 h.2), fun _ => rfl⟩
+  | .var n, h => ⟨[.leaf (.var n)], Tk.atom (Atom.var n h), fun _ => rfl⟩
   | .call n args, h => by
-    have ha := fmtFixedArgs_tk args h.2.2
-    exact ⟨[.leaf (.call n args)], by simpa [fmtToksFixed] using Tk.call h.1 h.2.1 ha, fun _ => rfl⟩
+    have ha := fmtArgs_tk args h.2.2
+    exact ⟨[.leaf (.call n args)], by simpa [fmtToks] using Tk.call h.1 h.2.1 ha, fun _ => rfl⟩
   | .un u e, h => by
-    obtain ⟨items, hk, hleaf⟩ := fmtFixed_tk e h
+    obtain ⟨items, hk, hleaf⟩ := fmt_tk e h
     refine ⟨[.op (docUnRule u), .leaf e], ?_, fun hl => by simp [PExp.isLeaf] at hl⟩
-    simp only [fmtToksFixed]
+    simp only [fmtToks]
     by_cases he : e.isLeaf = true
     · simp only [he, if_true]
       have := hleaf he; subst this
@@ -116,45 +52,45 @@ theorem fmtFixed_tk : (t : PExp) → WF t →
     · simp only [he]
       exact Tk.un (Tk.paren hk) (unKwTok_mem u)
   | .bin o l r, h => by
-    obtain ⟨il, hl, _⟩ := fmtFixed_tk l h.1
-    obtain ⟨ir, hr, _⟩ := fmtFixed_tk r h.2
-    refine ⟨(if printsParenFixed o false l then [.leaf l] else il) ++ .op (docRule o) ::
-        (if printsParenFixed o true r then [.leaf r] else ir), ?_, fun hl => by simp [PExp.isLeaf] at hl⟩
-    simp only [fmtToksFixed]
-    have hL : Tk l (if printsParenFixed o false l then parenToks (fmtToksFixed l) else fmtToksFixed l)
-        (if printsParenFixed o false l then [.leaf l] else il) := by
-      by_cases hp : printsParenFixed o false l = true
+    obtain ⟨il, hl, _⟩ := fmt_tk l h.1
+    obtain ⟨ir, hr, _⟩ := fmt_tk r h.2
+    refine ⟨(if printsParen o false l then [.leaf l] else il) ++ .op (docRule o) ::
+        (if printsParen o true r then [.leaf r] else ir), ?_, fun hl => by simp [PExp.isLeaf] at hl⟩
+    simp only [fmtToks]
+    have hL : Tk l (if printsParen o false l then parenToks (fmtToks l) else fmtToks l)
+        (if printsParen o false l then [.leaf l] else il) := by
+      by_cases hp : printsParen o false l = true
       · simp only [hp, if_true]; exact Tk.paren hl
       · simp only [hp]; exact hl
-    have hR : Tk r (if printsParenFixed o true r then parenToks (fmtToksFixed r) else fmtToksFixed r)
-        (if printsParenFixed o true r then [.leaf r] else ir) := by
-      by_cases hp : printsParenFixed o true r = true
+    have hR : Tk r (if printsParen o true r then parenToks (fmtToks r) else fmtToks r)
+        (if printsParen o true r then [.leaf r] else ir) := by
+      by_cases hp : printsParen o true r = true
       · simp only [hp, if_true]; exact Tk.paren hr
       · simp only [hp]; exact hr
     refine Tk.bin hL hR ?_ ?_ (binKwTok_mem o)
-    · by_cases hp : printsParenFixed o false l = true
+    · by_cases hp : printsParen o false l = true
       · left; simp [hp]
       · right
         by_cases hn : needParenLeft o l = true
-        · exact absurd (fixed_covers_left o l hn) hp
+        · exact absurd (printer_covers_left o l hn) hp
         · simpa using hn
-    · by_cases hp : printsParenFixed o true r = true
+    · by_cases hp : printsParen o true r = true
       · left; simp [hp]
       · right
         by_cases hn : needParenRight o r = true
-        · exact absurd (fixed_covers_right o r hn) hp
+        · exact absurd (printer_covers_right o r hn) hp
         · simpa using hn
   | .str _, h | .prim _, h | .cvar _ _, h | .access _ _, h | .block _ _, h | .scoped _ _ _ _, h => by
     simp [WF] at h
-theorem fmtFixedArgs_tk : (args : List PExp) → WF.WFs args → Args args (fmtToksFixedArgs args)
+theorem fmtArgs_tk : (args : List PExp) → WF.WFs args → Args args (fmtToksArgs args)
   | [], _ => Args.nil
   | [a], h => by
-    obtain ⟨items, hk, _⟩ := fmtFixed_tk a h.1
-    simpa [fmtToksFixedArgs] using Args.one hk
+    obtain ⟨items, hk, _⟩ := fmt_tk a h.1
+    simpa [fmtToksArgs] using Args.one hk
   | a :: b :: rest, h => by
-    obtain ⟨items, hk, _⟩ := fmtFixed_tk a h.1
-    have hr' := fmtFixedArgs_tk (b :: rest) h.2
-    simpa [fmtToksFixedArgs] using Args.cons hk hr'
+    obtain ⟨items, hk, _⟩ := fmt_tk a h.1
+    have hr' := fmtArgs_tk (b :: rest) h.2
+    simpa [fmtToksArgs] using Args.cons hk hr'
 end
 
 end Rooc.Syntax.Proofs
